@@ -1,5 +1,5 @@
 SPECIFICATION TraceSpec
-CONSTANTS KindSet = {"axis"} MaxOps = 0 Lvl = 1
+CONSTANTS KindSet = {"axis"} MaxOps = 0 Lvl = 1 Doors = "all"
 INVARIANTS TypeOK Refines OwnStrings
 PROPERTIES OtherKept
 POSTCONDITION TraceAccepted
